@@ -33,8 +33,11 @@ TCmp ==
   /\ bad' = Note(bad, First(<<
         <<Ev.r = CompareKV(Ev.a, Ev.b), "C19:CompareKV does not order pairs as bytes.Compare orders their keys">>,
         <<Ev.rr = -Ev.r, "C19:CompareKV is not antisymmetric">> >>), "BAD")
+(* a panic raised by a legal call sequence is behaviour of the real code (driver: guarded()) *)
+TPanic == /\ l <= N /\ Ev.e = "Panic" /\ l' = l + 1 /\ UNCHANGED x
+          /\ bad' = Note(bad, "C19:the call panicked: " \o Ev.msg \o " (" \o Ev.where \o ")", "BAD")
 TDone == l = N + 1 /\ UNCHANGED tvars
-TNext == TStream \/ TKV \/ TCmp \/ TDone
+TNext == TStream \/ TKV \/ TCmp \/ TPanic \/ TDone
 TSpec == TInit /\ [][TNext]_tvars
 Good == bad = ""
 =============================================================================
